@@ -102,7 +102,7 @@ Section Flat.
   Lemma prank_le n vs : Forall (fun v => length (shape v) <= n) vs -> prank vs <= n.
   Proof. induction 1 as [|v r Hv _ IH]; simpl; lia. Qed.
   Lemma prank_ge vs v : In v vs -> length (shape v) <= prank vs.
-  Proof. induction vs as [|w r IH]; simpl; intros [<-|H]; [lia | specialize (IH H); lia]. Qed.
+  Proof. induction vs as [|w r IH]; simpl; intro H; [contradiction|]. destruct H as [<-|H]; [lia | specialize (IH H); lia]. Qed.
 
   Lemma all1_repeat n : all1 (repeat 1 n) = true.
   Proof. induction n; simpl; auto. Qed.
@@ -123,7 +123,7 @@ Section Flat.
         destruct (Hall _ Hy); congruence.
       + pose proof (find_none _ _ Ef x Hin) as H. simpl in H. rewrite Hx in H. discriminate.
     - assert (Hs : Forall (fun v => all1 (shape v) = true) vs).
-      { eapply Forall_impl; [|exact Hall]. intros v [H|H]; auto. now rewrite H. }
+      { rewrite Forall_forall in *. intros v Hv. destruct (Hall v Hv) as [H|H]; auto. now rewrite H. }
       split; auto. destruct (find _ vs) as [y|] eqn:Ef; auto.
       apply find_some in Ef as [Hy Hny]. rewrite Forall_forall in Hs. rewrite (Hs _ Hy) in Hny. discriminate.
   Qed.
@@ -132,7 +132,7 @@ Section Flat.
   Proof.
     intros Hin Hall. destruct (full_shape_data x vs Hin Hall) as [H0 H1]. unfold operands_ok.
     destruct (all1 (shape x)) eqn:Ex.
-    - destruct (H1 eq_refl) as [_ Hs]. eapply Forall_impl; [|exact Hs]. auto.
+    - destruct (H1 eq_refl) as [_ Hs]. rewrite Forall_forall in *. intros v Hv. left. now apply Hs.
     - rewrite (H0 eq_refl). exact Hall.
   Qed.
 
